@@ -18,7 +18,7 @@ package fs_db
 //@   ensures rec: world.ucErr == result && world.ucCtx == ctx && world.ucKey == key
 //@ iface Store.SetReader
 //@   params ctx, key, reader
-//@   modifies world.ucErr, world.ucCtx, world.ucKey
+//@   modifies world.ucErr, world.ucCtx, world.ucKey, world.closed
 //@   ensures rec: world.ucErr == result && world.ucCtx == ctx && world.ucKey == key
 //@ iface Store.Get
 //@   params ctx, key
@@ -52,7 +52,7 @@ package fs_db
 //@   ensures  answer: sameClass(result, world.ucErr)
 //@ func (*tx).SetReader
 //@   requires inv:    t != nil && t.store != nil
-//@   modifies world.ucErr, world.ucCtx, world.ucKey
+//@   modifies world.ucErr, world.ucCtx, world.ucKey, world.closed
 //@   ensures  intx:   world.ucCtx == txCtx(t, ctx) && world.ucKey == key
 //@   ensures  answer: sameClass(result, world.ucErr)
 //@ func (*tx).Get
